@@ -525,16 +525,20 @@ Section StepShift.
       apply shifted_upd_cur; try assumption; [track_eq|len_ok].
     - (* TOctaveRel *) apply shifted_upd_cur; try assumption; [track_eq|len_ok].
     - (* TOctaveOnce *)
-      set (F := fun t => tr_set_octave t (value_range 0 (tr_octave t + v) 10)).
+      cbv zeta. rewrite ct'.
+      cbn [shift_track tr_set_events tr_set_timepos tr_timepos tr_channel tr_length tr_octave tr_velocity tr_qlen tr_timing tr_track_key].
+      set (after := value_range 0 (tr_octave (cur_track s) + v) 10).
+      set (F := fun t => tr_set_octave t after).
       rewrite (upd_cur_shift L n h s F F Hc) by (unfold F; track_eq).
       change (s_octave_once s') with (s_octave_once s).
-      apply (shifted_ok L n h (s_set_octave_once (upd_cur s F) (s_octave_once s + v))).
+      set (k := s_octave_once s + (after - tr_octave (cur_track s))).
+      apply (shifted_ok L n h (s_set_octave_once (upd_cur s F) k)).
       + apply (t_cur_valid_upd_cur s F Hc).
-      + change (cur_track (s_set_octave_once (upd_cur s F) (s_octave_once s + v))) with (cur_track (upd_cur s F)).
+      + change (cur_track (s_set_octave_once (upd_cur s F) k)) with (cur_track (upd_cur s F)).
         rewrite t_cur_track_upd_cur by exact Hc. exact Hn.
-      + change (cur_track (s_set_octave_once (upd_cur s F) (s_octave_once s + v))) with (cur_track (upd_cur s F)).
+      + change (cur_track (s_set_octave_once (upd_cur s F) k)) with (cur_track (upd_cur s F)).
         rewrite t_cur_track_upd_cur by exact Hc. exact Ht.
-      + change (cur_track (s_set_octave_once (upd_cur s F) (s_octave_once s + v))) with (cur_track (upd_cur s F)).
+      + change (cur_track (s_set_octave_once (upd_cur s F) k)) with (cur_track (upd_cur s F)).
         rewrite t_cur_track_upd_cur by exact Hc. exact Hi.
       + exact Hh.
     - (* TVelocity *) destruct (ino >? 0); [reflexivity|].
